@@ -29,11 +29,14 @@ def gen_parts(rng, verb=None, max_target=40, max_headers=4, eol=None):
     for _ in range(rng.randrange(0, max_headers + 1)):
         k = rng.randrange(5)
         if k == 0:
-            headers.append((b"Host", b" example.com"))
+            # the headers the responder knows by name, in every legal shape: any case, empty / blank / padded values
+            headers.append((rng.choice([b"Host", b"Host", b"host", b"HOST", b"hOsT"]),
+                            rng.choice([b" example.com", b" example.com", b"", b" ", b"   ", b"\t", b"example.com", b" example.com:8080 ", b" [::1]", b" " + bytes(rng.choice(TOKEN) for _ in range(rng.randrange(1, 300)))])))
         elif k == 1:
-            headers.append((b"Content-Length", b" %d" % rng.randrange(100)))
+            headers.append((rng.choice([b"Content-Length", b"content-length", b"CONTENT-LENGTH"]),
+                            rng.choice([b" %d" % rng.randrange(100), b"", b" ", b" 0", b" -1", b" 18446744073709551616", b" 4294967296", b" 1e3", b" 12 ", b" 0x10"])))
         elif k == 2:
-            headers.append((b"Content-Type", b" text/plain"))
+            headers.append((rng.choice([b"Content-Type", b"content-type"]), rng.choice([b" text/plain", b"", b" ", b" a/b; charset=\xff"])))
         elif k == 3:
             name = bytes(rng.choice(TOKEN) for _ in range(rng.randrange(1, 12)))
             headers.append((name, _bytes_excluding(rng, rng.randrange(0, 20), (0x0D, 0x0A))))
